@@ -1158,6 +1158,27 @@ func (e *vf18Env) byzFinale(r *vfRand, peer *vf18Peer) {
 	cs := e.node.cs
 	id := e.blockID()
 	full := kproto.BlockID{Hash: id.Hash.Bytes(), PartSetHeader: kproto.PartSetHeader{Total: id.PartsHeader.Total, Hash: id.PartsHeader.Hash.Bytes()}}
+	if r.Chance(50) {
+		// two-step: claim +2/3 for a block id (the vote set starts a tally for it), then a vote for that
+		// id "from" a validator index beyond the set - unsigned garbage that must die at the index check
+		typ := kproto.SignedMsgType(r.Pick(int(kproto.PrevoteType), int(kproto.PrecommitType)))
+		x := full
+		if r.Chance(30) {
+			x = kproto.BlockID{}
+		}
+		if bz, err := proto.Marshal(&kcons.Message{Sum: &kcons.Message_VoteSetMaj23{VoteSetMaj23: &kcons.VoteSetMaj23{Height: cs.Height, Round: cs.Round, Type: typ, BlockID: x}}}); err == nil {
+			e.receive(StateChannel, peer, bz, "byz-validator")
+		}
+		ov := &kproto.Vote{Type: typ, Height: cs.Height, Round: cs.Round, BlockID: x, Timestamp: time.Unix(1700000000, 0),
+			ValidatorAddress: e.net.addrs[1+r.Intn(3)].Bytes(), ValidatorIndex: uint32(r.Pick(e.nVals, e.nVals+1, 1000, 1<<31-1)), Signature: r.Bytes(65)}
+		if bz, err := proto.Marshal(&kcons.Message{Sum: &kcons.Message_Vote{Vote: &kcons.Vote{Vote: ov}}}); err == nil && !e.dead {
+			e.receive(VoteChannel, peer, bz, "byz-validator")
+		}
+		e.o.Stat("byz-finale/index-beyond-set")
+		if e.dead {
+			return
+		}
+	}
 	for k := 1 + r.Intn(2); k > 0; k-- {
 		b := full
 		switch r.Intn(7) {
